@@ -92,7 +92,7 @@ func genHspec(r *rand.Rand) hspec {
 				h.Acts = append(h.Acts, act{Op: "cancel"})
 			}
 		case x < 38:
-			h.Acts = append(h.Acts, act{Op: []string{"rectx", "rectx", "rectxi"}[r.Intn(3)]})
+			h.Acts = append(h.Acts, act{Op: []string{"rectx", "rectx", "rectxi", "detach", "redirect"}[r.Intn(5)]})
 		default:
 			h.Acts = append(h.Acts, act{Op: "panic"})
 		}
@@ -233,6 +233,9 @@ type chainSim struct {
 	status    int
 	body      strings.Builder
 	cancelled bool
+	stale     bool // the cancel function at hand belongs to a context the request no longer derives from (after detach)
+	get       bool // the request method is GET (a redirect then has a short body)
+	ct        bool // a Content-Type header has been set (by an earlier redirect)
 	foreign   bool // a handler has mapped an independent writer as the request's http.ResponseWriter service: returned values go there
 	tr        []string
 }
@@ -309,13 +312,34 @@ func (s *chainSim) exec(i int, h *hspec) {
 				s.foreign = true
 				s.tr = append(s.tr, fmt.Sprintf("mapfw%d.%d", i, k))
 			case "cancel":
+				if s.stale {
+					s.tr = append(s.tr, fmt.Sprintf("stale-cancel%d.%d", i, k)) // cancels a context the request has left behind
+					break
+				}
 				s.cancelled = true
 				s.tr = append(s.tr, fmt.Sprintf("cancel%d.%d", i, k))
 			case "expire":
-				s.cancelled = true
+				s.cancelled, s.stale = true, false
 				s.tr = append(s.tr, fmt.Sprintf("cancelx%d.%d", i, k))
 			case "rectx", "rectxi":
+				s.stale = false
 				s.tr = append(s.tr, fmt.Sprintf("rectx%d.%d", i, k))
+			case "detach":
+				// the request goes on under a context that is not derived from the incoming one (context.WithoutCancel):
+				// whatever becomes of the contexts it has left behind, the request's own context decides
+				s.cancelled, s.stale = false, true
+				s.tr = append(s.tr, fmt.Sprintf("detach%d.%d", i, k))
+			case "redirect":
+				s.tr = append(s.tr, fmt.Sprintf("redirect%d.%d", i, k))
+				s.header(302)
+				// net/http's Redirect adds its short HTML body only to GET requests, and only if no Content-Type was set
+				// before (it sets one for GET and HEAD itself: a second redirect in the same request finds it)
+				if (s.get || s.head) && !s.ct {
+					s.ct = true
+					if s.get {
+						s.write("<a href=\"/elsewhere\">Found</a>.\n\n")
+					}
+				}
 			case "panic":
 				panic(chainSentinel{"program"})
 			}
@@ -388,6 +412,7 @@ type chainExec struct {
 	cancel       gocontext.CancelFunc
 	reenter      string
 	early        bool // the Before handler is sending its interim response right now
+	stale        bool // x.cancel belongs to a context the request no longer derives from
 }
 
 func (x *chainExec) mk(i int, h *hspec) flamego.Handler {
@@ -448,23 +473,34 @@ func (x *chainExec) mk(i int, h *hspec) flamego.Handler {
 				r := c.Request().Request
 				ctx2, cancel2 := gocontext.WithCancel(r.Context())
 				*r = *r.WithContext(ctx2)
-				x.cancel = cancel2
+				x.cancel, x.stale = cancel2, false
 				x.tr = append(x.tr, fmt.Sprintf("rectx%d.%d", i, k))
 			case "cancel":
 				x.cancel()
+				if x.stale {
+					x.tr = append(x.tr, fmt.Sprintf("stale-cancel%d.%d", i, k))
+					break
+				}
 				x.tr = append(x.tr, fmt.Sprintf("cancel%d.%d", i, k))
+			case "detach":
+				c.Request().Request = c.Request().WithContext(gocontext.WithoutCancel(c.Request().Context()))
+				x.stale = true
+				x.tr = append(x.tr, fmt.Sprintf("detach%d.%d", i, k))
+			case "redirect":
+				x.tr = append(x.tr, fmt.Sprintf("redirect%d.%d", i, k))
+				c.Redirect("/elsewhere")
 			case "expire":
 				// a timeout middleware whose time is up: the request now carries a context whose deadline has passed
 				// (it is done with DeadlineExceeded, nobody called a cancel function)
 				ctx2, cancel2 := gocontext.WithDeadline(c.Request().Context(), time.Unix(1, 0))
 				c.Request().Request = c.Request().WithContext(ctx2)
-				x.cancel = cancel2
+				x.cancel, x.stale = cancel2, false
 				x.tr = append(x.tr, fmt.Sprintf("cancelx%d.%d", i, k))
 			case "rectx":
 				// the usual deadline-middleware pattern: the request now carries a derived context
 				ctx2, cancel2 := gocontext.WithCancel(c.Request().Context())
 				c.Request().Request = c.Request().WithContext(ctx2)
-				x.cancel = cancel2
+				x.cancel, x.stale = cancel2, false
 				x.tr = append(x.tr, fmt.Sprintf("rectx%d.%d", i, k))
 			case "panic":
 				panic(chainSentinel{"program"})
@@ -554,6 +590,8 @@ func chainTracePredicates(tr []string, chainLen int) string {
 			}
 		case strings.HasPrefix(e, "cancel"):
 			cancelled = true
+		case strings.HasPrefix(e, "detach"):
+			cancelled = false
 		}
 		prev = e
 	}
@@ -566,7 +604,7 @@ func chainVerdict(c *chainCase, obsTr []string, obsStatus int, obsBody string, o
 		return reenter
 	}
 	chain := c.chain()
-	sim := &chainSim{chain: chain, head: c.Method == "HEAD"}
+	sim := &chainSim{chain: chain, head: c.Method == "HEAD", get: c.Method == "" || c.Method == "GET"}
 	var simPanic interface{}
 	func() {
 		defer func() { simPanic = recover() }()
@@ -766,7 +804,7 @@ func judgeChain(w *core.W, c *chainCase) {
 			f.ServeHTTP(&chainSpy{hdr: http.Header{}, tr: &ptr, early: &x.early}, (&http.Request{Method: c.method(), URL: &url.URL{Path: path + "/probe"}, Header: http.Header{}}).WithContext(pctx))
 		}()
 		pcancel()
-		x.tr, x.entered, x.reenter, x.cancel = nil, map[int]int{}, "", cancel
+		x.tr, x.entered, x.reenter, x.cancel, x.stale = nil, map[int]int{}, "", cancel, false
 		w.Count("sibling-route-with-shared-handler-prefix")
 	}
 	spy := &chainSpy{hdr: http.Header{}, tr: &x.tr, early: &x.early}
@@ -869,7 +907,7 @@ func judgeChain(w *core.W, c *chainCase) {
 }
 
 func runC03(r *core.Run) {
-	r.Rule("random handler programs: 0-3 application middleware, 0-3 nested groups with 0-2 handlers each, 1-4 route handlers, optional action, 1/6 of requests unrouted (middleware + not-found handlers + action); every handler is a random action list (<=5) over {event, Write (directly, through a NewResponseWriter layered on the context's writer, or by another Flame instance mounted as a handler), WriteHeader, Next, Next() inside a guard that recovers what the rest of the chain throws and answers nothing, put an independent writer into the request's injector, cancel request context, give the request a context whose deadline has passed, replace the request context by a derived one, panic} plus a return shape {none, \"\", string, []byte, nil []byte, (int,string), (int,\"\"), error, nil error}, invoked through the fast path or reflectively. Oracle: per-request event log (handler enter/exit, Next begin/end, every call reaching a spy writer) must equal the prediction of a statement-level interpreter, plus interpreter-independent trace predicates (consecutive start order, nesting, no automatic advance after write/cancel, one status before body). non-trivial = distinct programs with >=1 Next and an effect (write/cancel/panic) in a different handler, or >=2 Next in one handler, or the nil action reached")
+	r.Rule("random handler programs: 0-3 application middleware, 0-3 nested groups with 0-2 handlers each, 1-4 route handlers, optional action, 1/6 of requests unrouted (middleware + not-found handlers + action); every handler is a random action list (<=5) over {event, Write (directly, through a NewResponseWriter layered on the context's writer, or by another Flame instance mounted as a handler), WriteHeader, Next, Next() inside a guard that recovers what the rest of the chain throws and answers nothing, put an independent writer into the request's injector, cancel request context, give the request a context whose deadline has passed, replace the request context by a derived one, detach the request from the incoming context (context.WithoutCancel) so that cancelling what it left behind means nothing, Context.Redirect, panic} plus a return shape {none, \"\", string, []byte, nil []byte, (int,string), (int,\"\"), error, nil error}, invoked through the fast path or reflectively. Oracle: per-request event log (handler enter/exit, Next begin/end, every call reaching a spy writer) must equal the prediction of a statement-level interpreter, plus interpreter-independent trace predicates (consecutive start order, nesting, no automatic advance after write/cancel, one status before body). non-trivial = distinct programs with >=1 Next and an effect (write/cancel/panic) in a different handler, or >=2 Next in one handler, or the nil action reached")
 	c03Canaries(r)
 	n := r.N(60000, 6000000)
 	r.Parallel("prog", n, func(w *core.W, rng *rand.Rand, i int) {
